@@ -48,6 +48,8 @@ NO_PANIC = [
 
 # Command-line front end (C20): argument parsing exits the process with a usage message instead of returning (outside the
 # property's quantifier "for every readable input file"); file I/O returns Results that main handles with expect (audited).
+NO_PANIC += ["std::string::String::as_str", "std::str::traits::eq", "std::vec::Vec::as_slice", "std::string::String::as_bytes", "std::str::eq",
+             "std::cmp::PartialEq::eq", "std::vec::Vec::iter", "std::vec::Vec::as_ptr", "std::slice::first", "std::slice::get"]
 NO_PANIC += ["clap::App::new", "clap::App::version", "clap::App::about", "clap::App::arg", "clap::App::get_matches", "clap::Arg::with_name",
              "clap::Arg::index", "clap::Arg::required", "clap::ArgMatches::value_of", "std::fs::File::open", "std::io::Read::read_to_end",
              "std::io::_print"]
